@@ -156,8 +156,20 @@ def phot_stream(rep, r, n, lines, exps, metas):
             init['group_id'] = [max(g0) + 1 - v for v in g0]
         # a supplied group_id column is honoured with or without a grouper object
         no_grouper = use_gid and r.random() < 0.5
-        phot = PSFPhotometry(model, fit_shape, grouper=None if no_grouper else SourceGrouper(sep), aperture_radius=4, progress_bar=False)
-        replay = {'grouper': None if no_grouper else 'SourceGrouper', 'model': kind, 'sources': srcs, 'order': order, 'init': {c_: [float(v) for v in init[c_]] for c_ in init.colnames}, 'fit_shape': list(fit_shape), 'min_separation': sep,
+        # local-background settings: a constant pedestal under the scene, supplied exactly through the init_params 'local_bkg' column -
+        # alone, or together with a LocalBackground estimator whose (source-contaminated) annulus must then be ignored, as documented
+        lbkg = r.choice(['none', 'none', 'column', 'column+estimator'])
+        localbkg_estimator = None
+        if lbkg != 'none':
+            from photutils.background import LocalBackground
+            ped = r.choice([5.0, 12.5, -3.0])
+            img = img + ped
+            init['local_bkg'] = [ped] * len(order)
+            if lbkg == 'column+estimator':
+                localbkg_estimator = LocalBackground(2.5, 6.0)
+        phot = PSFPhotometry(model, fit_shape, grouper=None if no_grouper else SourceGrouper(sep), aperture_radius=4, progress_bar=False,
+                             localbkg_estimator=localbkg_estimator)
+        replay = {'local_bkg': lbkg, 'grouper': None if no_grouper else 'SourceGrouper', 'model': kind, 'sources': srcs, 'order': order, 'init': {c_: [float(v) for v in init[c_]] for c_ in init.colnames}, 'fit_shape': list(fit_shape), 'min_separation': sep,
                   'group_id_supplied': use_gid, 'mask': None if mask is None else np.argwhere(mask).tolist()}
         try:
             with warnings.catch_warnings():
@@ -169,11 +181,15 @@ def phot_stream(rep, r, n, lines, exps, metas):
         nsrc = len(order)
         grouped = len(set(res['group_id'])) < nsrc
         rep.case((kind, tuple(map(tuple, srcs)), tuple(order), fit_shape, sep, use_gid), grouped or mask is not None,
-                 kind=f'psfphot:{kind}' + (':group_id' if use_gid else '') + (':no-grouper' if no_grouper else '') + (':mask' if mask is not None else ''),
+                 kind=f'psfphot:{kind}' + (':group_id' if use_gid else '') + (':no-grouper' if no_grouper else '') + (':mask' if mask is not None else '') + ('' if lbkg == 'none' else ':local_bkg-' + lbkg),
                  sample={'model': kind, 'nsources': nsrc, 'fit_shape': list(fit_shape), 'group_sizes': [int(v) for v in res['group_size']]})
         # (S) rows in input order with ids 1..N
         if list(res['id']) != list(range(1, nsrc + 1)) or not np.allclose(res['x_init'], init['x']) or not np.allclose(res['y_init'], init['y']):
             rep.violation('rows-not-in-input-order', 'output rows are not in input order with ids 1..N', replay)
+            continue
+        if lbkg != 'none' and not np.array_equal(np.asarray(res['local_bkg'], float), np.asarray(init['local_bkg'], float)):
+            rep.violation(f'local_bkg-column-not-used:{lbkg}', f"init_params['local_bkg'] = {list(init['local_bkg'])} was supplied but the output local_bkg is "
+                          f"{[float(v) for v in res['local_bkg']]}", replay)
             continue
         # (S) recovery of the rendered truth (noise-free, started within a pixel)
         bad = None
@@ -218,6 +234,8 @@ def phot_stream(rep, r, n, lines, exps, metas):
                 warnings.simplefilter('ignore')
                 init2 = init.copy()
                 init2['flux'] = np.asarray(init['flux']) * 3
+                if 'local_bkg' in init2.colnames:
+                    init2['local_bkg'] = np.asarray(init['local_bkg']) * 3
                 res3 = PSFPhotometry(model, fit_shape, grouper=SourceGrouper(sep), aperture_radius=4, progress_bar=False)(
                     img * 3, init_params=init2, mask=mask)
             if not np.allclose(res3['flux_fit'], 3 * np.asarray(res['flux_fit']), rtol=1e-4):
